@@ -1,4 +1,5 @@
 import Slock.Proofs.Engine2TightOps
+import Slock.Proofs.Engine2PK
 /-! Stage-2 engine: every UNLOCK branch keeps "nothing leaks". -/
 namespace Slock.Engine2
 open Slock.Engine (has)
@@ -159,6 +160,20 @@ theorem release_tight {w : W} (g : Good w) (cl : CurLive w.k) (h : Nat) (hh : w.
           show ((((w2.dropLongE h).journalUnlock h fa false 0).k.removeLock h).getR h).eSched.isSome = true
           rw [k2]; exact e4
         simp only [zero] at hrc; omega
+    have hexp5 : w5.k.hasRec h → (w5.k.getR h).expried = true := by
+      intro hx
+      have p2 : PK (·.expried) w2 (w.modR h (fun r => { r with expried := true })) := by
+        rw [e2]
+        exact (pk_procData ins_expried _ _ _ _ _).trans (PKeep.of_eq rfl)
+      have p4 : PK (·.expried) ((w2.dropLongE h).journalUnlock h fa false 0) (w.modR h (fun r => { r with expried := true })) :=
+        (pk_journalUnlock ins_expried _ _ _ _ _).trans ((pk_dropLongE ins_expried _ _ (fun _ _ => rfl)).trans p2)
+      have p5 : PKeep (·.expried) w5.k (w.modR h (fun r => { r with expried := true })).k := by
+        rw [e5]
+        exact (PKeep.removeLock ins_expried (fun _ _ => rfl) _ h).trans p4
+      have := p5.val h hx
+      rw [this]
+      show ((w.k.modRec h _).getR h).expried = true
+      rw [getR_modRec_same _ _ _ (by intro _; rfl) hh]
     have n6 : Nz w5 none := n5.clear h (fun hx => ⟨hpos.2, fun hp => by
       have hz : (w5.k.getR h).depth = 0 := by
         have hx' := hx
@@ -167,7 +182,7 @@ theorem release_tight {w : W} (g : Good w) (cl : CurLive w.k) (h : Nat) (hh : w.
       omega, fun _ => by
       have hx' := hx
       rw [e5] at hx' ⊢
-      exact removeLock_depth _ h hx'⟩)
+      exact removeLock_depth _ h hx', fun _ _ => hexp5 hx⟩)
     exact Tight.of_good ⟨l5, n6⟩ (recs_ne_of_hasRec hpos.1) c5
 
 theorem qRefs_pos_of_wait_mem (k : Key) (x : Nat) (h : x ∈ k.wait.map (·.rid)) : 0 < k.qRefs x := by
@@ -199,7 +214,7 @@ theorem applyUnlock_tight (db : DB) (hdb : DBI db) (ht : ∀ k ∈ db.keys, KeyT
       le.modR x _ (fun _ => rfl) (le.rc.modRec_plain x _ (fun _ => rfl) (fun _ => rfl) (fun _ => rfl)) (by
         intro r _ _ hf; simp at hf)
     have n1 : Nz ((db.openKey c.key).modR x (fun r => { r with timeouted := true })) none :=
-      ge.nz.of_up (RecsUp.modRec _ x _ (fun _ => rfl) (fun _ h => ⟨h.pos, h.hold, h.ended⟩))
+      ge.nz.of_up (RecsUp.modRec _ x _ (fun _ => rfl) (fun _ h => ⟨h.pos, h.hold, h.ended, h.fin⟩))
     have hh1 : ((db.openKey c.key).modR x (fun r => { r with timeouted := true })).k.hasRec x :=
       (hasRec_modR _ x x _ (by intro _; rfl)).mpr hh
     have l2 := l1.dropLongT zero_nonneg x hh1
@@ -229,7 +244,7 @@ theorem applyUnlock_tight (db : DB) (hdb : DBI db) (ht : ∀ k ∈ db.keys, KeyT
       le.modR_plain h _ (fun _ => rfl) (fun _ => rfl) (fun _ => rfl) (fun _ => rfl) (fun _ => rfl)
     have n1 : Nz ((db.openKey c.key).modR h (fun r => { r with depth := r.depth - 1 })) none :=
       ge.nz.modR_at h _ (fun _ => rfl) (fun _ hf => ⟨hf.pos, fun _ => hf.hold (by omega), fun hx => by
-        have := hf.ended hx; simp only []; omega⟩)
+        have := hf.ended hx; simp only []; omega, fun hz => by simp only [] at hz; omega⟩)
     have c1 : CurLive ((db.openKey c.key).modR h (fun r => { r with depth := r.depth - 1 })).k :=
       ce.modDepth h _ (fun _ => rfl) hh (by simp only []; omega)
     have hh1 : ((db.openKey c.key).modR h (fun r => { r with depth := r.depth - 1 })).k.hasRec h := (hasRec_modR _ h h _ (by intro _; rfl)).mpr hh
